@@ -50,7 +50,51 @@ def jobs(tier):
             for decoy in ("before", "after"):
                 out.append(("v%d.flat2.flat.pre-empty.decoy-%s.last-file-%s" % (version, decoy, damage), "job",
                             dict(version=version, shape="flat2", P=16384, K=2, layout="flat", decoy=decoy, pre="empty", damage=damage)))
+    for version in (1, 2, 3):
+        out.append(("v%d.flat2.flat.pre-empty.decoy-before.first-file-missing" % version, "job",
+                    dict(version=version, shape="flat2", P=16384, K=2, layout="flat", decoy="before", pre="empty", damage="first-missing")))
+    for version in (1, 2):
+        out.append(("v%d.hostile-name-into-search-dir" % version, "job_hostile", dict(version=version)))
     return out
+
+
+def job_hostile(E, version, _mutants=None):
+    """A hostile metafile whose name points back into a search directory whose
+    name extends the destination's: nothing under the search directories may change."""
+    from symx.afs import AFS
+    from symx.loader import BenTok
+    from symx import refs
+    P = 16384
+    fs = AFS(order="reversed")
+    s0 = E.int("s0", 1, 2 * P)
+    t0 = E.int("pre_len", 0, None)
+    E.assume(t0 < s0)
+    E.note("shape", "hostile")
+    fs.add("/w/dest-src/new/f.bin", ("f", 0), s0)                 # the genuine payload
+    fs.add("/w/dest-src/keep/f.bin", ("victim", 0), t0)           # an unrelated, shorter file in the search tree
+    fs.mkdirs("/w/dest")
+    c0 = ABuf.file(("f", 0), s0)
+    info = {"name": "../dest-src", "piece length": P}
+    if version == 1:
+        info["files"] = [{"length": s0, "path": ["keep", "f.bin"]}]
+        info["pieces"] = refs.v1_pieces(c0, P)
+        meta = {"info": info}
+    else:
+        root, layer, _ = refs.v2_layerwise(c0, P)
+        info["meta version"] = 2
+        info["file tree"] = {"keep": {"f.bin": {"": {"length": s0, "pieces root": root}}}}
+        meta = {"info": info, "piece layers": ({root: layer} if tb(s0 > P) else {})}
+    fs.add_token("/w/t/m.torrent", BenTok(meta))
+    snap = fs.snapshot()
+    w = World(fs, mutants=_mutants)
+    try:
+        w.mod("rebuild").Assembler(["/w/t/m.torrent"], ["/w/dest-src"], "/w/dest").assemble_torrents()
+    except Exception as ex:  # noqa: BLE001
+        E.note("raised", "%s" % type(ex).__name__)
+    changed = [d for d in fs.diff(snap) if d[1].startswith("/w/dest-src") or d[1].startswith("/w/t")]
+    E.check(not changed, "C14.sources-untouched", "search directories / metafiles changed: %r" % (changed[:4],))
+    for k in WITNESSES:
+        E.witnesses.setdefault(k, True)
 
 
 def job(E, version, shape, P, K, layout, decoy, pre, damage=None, _mutants=None):
@@ -129,6 +173,8 @@ def judge(E, fs, snap, sizes, expected, protected, layout, shape, tag):
                 rel = rel_by_dest[dst]
                 E.check(posixpath.basename(src) == rel.split("/")[-1], tag + ".copy-name-matches", "%r" % (entry,))
                 E.check(snap[0][src].size() == sizes[rel] if src in snap[0] else False, tag + ".copy-size-matches", "%r" % (entry,))
+        elif op == "copy-write":
+            pass        # second half of a copy (logged separately as a fault point)
         else:
             E.fail(tag + ".only-copies", "unexpected mutating operation %r" % (entry,))
     # 4. nothing placed is a decoy / a patchwork: every file at an assigned path that was created or changed holds
@@ -144,8 +190,34 @@ def judge(E, fs, snap, sizes, expected, protected, layout, shape, tag):
             E.check(not _is_decoy(node.content), tag + ".placed-file-verifies", "%s holds a file none of whose bytes verify against the metafile" % d)
 
 
+def _replay_hostile(params, model, workdir, seed):
+    import io
+    import contextlib
+    P = 16384
+    s0, t0 = int(model["s0"]), int(model.get("pre_len", 0))
+    d0 = refconc.content(("f", 0), s0, seed)
+    w = os.path.join(workdir, "w")
+    refconc.write_file(os.path.join(w, "dest-src", "new", "f.bin"), d0)
+    refconc.write_file(os.path.join(w, "dest-src", "keep", "f.bin"), refconc.content(("victim", 0), t0, seed))
+    os.makedirs(os.path.join(w, "dest"))
+    meta = refconc.build_meta([(["keep", "f.bin"], d0)], P, params["version"], name="../dest-src")
+    refconc.write_file(os.path.join(w, "t", "m.torrent"), refconc.bencode(meta))
+    before = refconc.snapshot(workdir)
+    mods = cr.real_torrentfile()
+    try:
+        with contextlib.redirect_stdout(io.StringIO()):
+            mods["torrentfile.rebuild"].Assembler([os.path.join(w, "t", "m.torrent")], [os.path.join(w, "dest-src")], os.path.join(w, "dest")).assemble_torrents()
+    except Exception:  # noqa: BLE001
+        pass
+    after = refconc.snapshot(workdir)
+    return ["C14.sources-untouched:%s" % k for k in set(before) | set(after)
+            if before.get(k) != after.get(k) and not k.startswith("w/dest/") and k != "w/dest"]
+
+
 def replay(params, model, notes, workdir, seed):
     from harness import c13
+    if "shape" not in params:
+        return _replay_hostile(params, model, workdir, seed)
     sizes, data, expected = rw.conc_world(params, model, workdir, seed)
     shape, layout, pre = params["shape"], params.get("layout", "flat"), params["pre"]
     rels = SHAPES[shape]
